@@ -98,6 +98,7 @@ def validate_trace(trace_file, n_events, module='Trace', timeout=3600, xmx='3g')
         raise MachineryError('TLC did not accept/consume trace %s (depth %s, expected %d)\n%s'
                              % (trace_file, res.get('depth'), n_events + 1, tail))
     res['info'] = [(int(m.group(1)), m.group(2)) for m in re.finditer(r'<<"INFO", (\d+), "(\w+)">>', out)]
+    res['skips'] = len(re.findall(r'<<"SKIP", \d+, "\w+">>', out))
     return parse_rejects(out), res
 
 
